@@ -410,7 +410,7 @@ def history_circuit(rnd, tag):
 def compose_concrete(p, item, tier, seed):
     kind, arg = item
     if kind == "feature":
-        for name, c in circgen.feature_circuits():
+        for name, c in circgen.feature_circuits() + circgen.large_circuits(0):
             _check_concrete_circuit(p, "feature:" + name, c)
             # relabelled + re-ordered insertion variant must behave identically
             _check_concrete_circuit(p, "feature-relabelled:" + name, _relabel_shuffle(c, random.Random(seed + 1)))
